@@ -5,6 +5,7 @@ import (
 	"fmt"
 	"strconv"
 	"strings"
+	"sync"
 
 	"github.com/prometheus/client_golang/prometheus"
 	dto "github.com/prometheus/client_model/go"
@@ -29,6 +30,7 @@ import (
 //   o.limits  (same arguments, lazy expanded postings on: reservations depend on posting-size heuristics)
 //                               oracle only
 //
+//   o.lim.conc <limit> <goroutines> <reservations each> <size>   one Limiter, concurrent reservations (oracle: limiter-overgrant)
 //   o.limited <blocks> <mint> <maxt> <matchers> <series limit>
 //                               the TSDBStore of the first block behind store.NewLimitedStoreServer (the limit of
 //                               --store.limits.request-series on sidecar, ruler, receive and querier); oracle only
@@ -229,6 +231,61 @@ func execStLimits(c *hlib.Ctx, tok []string) string {
 	return "exhausted"
 }
 
+// execLimConc: o.lim.conc <limit> <goroutines> <reservations each> <size>
+//
+//	one Limiter, several goroutines reserving at the same time (the atomic counter is what makes the limit hold)
+//	oracle: limiter-overgrant — the granted reservations sum to more than the limit
+func execLimConc(c *hlib.Ctx, tok []string) string {
+	if len(tok) != 5 {
+		return "bad-op"
+	}
+	var v [4]uint64
+	for i := range v {
+		x, err := strconv.ParseUint(tok[i+1], 10, 64)
+		if err != nil {
+			return "bad-op"
+		}
+		v[i] = x
+	}
+	limit, gor, each, size := v[0], int(v[1]), int(v[2]), v[3]
+	if gor < 1 || gor > 64 || each > 1000000 {
+		return "bad-op"
+	}
+	l := store.NewLimiter(limit, prometheus.NewCounter(prometheus.CounterOpts{Name: "x"}))
+	granted := make([]uint64, gor)
+	var wg sync.WaitGroup
+	start := make(chan struct{})
+	for g := 0; g < gor; g++ {
+		wg.Add(1)
+		go func(g int) {
+			defer wg.Done()
+			<-start
+			for i := 0; i < each; i++ {
+				if l.Reserve(size) == nil {
+					granted[g] += size
+				}
+			}
+		}(g)
+	}
+	close(start)
+	wg.Wait()
+	var sum uint64
+	for _, x := range granted {
+		sum += x
+	}
+	if limit > 0 && sum > limit {
+		c.Violation("limiter-overgrant", fmt.Sprintf("%d goroutines were granted %d in total, limit %d", gor, sum, limit))
+	}
+	demand := uint64(gor) * uint64(each) * size
+	if limit > 0 && demand <= limit && sum != demand {
+		c.Violation("spurious-exhausted", fmt.Sprintf("demand %d within the limit %d, only %d granted", demand, limit, sum))
+	}
+	if limit > 0 && sum > limit {
+		return "overgrant"
+	}
+	return "ok"
+}
+
 func execLimited(c *hlib.Ctx, tok []string) string {
 	if len(tok) != 6 {
 		return "bad-op"
@@ -279,6 +336,8 @@ func execC09(c *hlib.Ctx, tok []string) string {
 		return execStLimits(c, tok)
 	case "o.limited":
 		return execLimited(c, tok)
+	case "o.lim.conc":
+		return execLimConc(c, tok)
 	}
 	return "bad-op"
 }
@@ -318,6 +377,14 @@ func genC09(c *hlib.Ctx) {
 			c.Count("lim:random")
 		}
 		c.Do(fmt.Sprintf("lim.seq %d %s", limit, hlib.Ints(ns, ",")), k > 0)
+	}
+	// ---- one limiter, concurrent reservations
+	for i, n := 0, c.N(12, 200); i < n; i++ {
+		gor, each, size := pickInt(r, 2, 8, 8, 16), pickInt(r, 2000, 5000, 20000), pickInt(r, 1, 1, 3)
+		demand := gor * each * size
+		limit := pickInt(r, demand/2, demand/2, demand-1, demand, demand+1, 0)
+		c.Count("lim:concurrent")
+		c.Do(fmt.Sprintf("o.lim.conc %d %d %d %d", limit, gor, each, size), true)
 	}
 	// ---- the limited store server in front of a TSDB store
 	for i, n := 0, c.N(6, 120); i < n; i++ {
